@@ -701,6 +701,28 @@ def lazy_memos_of(fn: FuncInfo) -> Set[str]:
                         tg = s.targets if isinstance(s, ast.Assign) else [s.target]
                         if any(is_self_attr(t, selfname) == a for t in tg):
                             out.add(a)
+    # guarded-return form: `if self._m is not None [or ...]: return self._m` ... `self._m = E` later in the same block
+    for blk_owner in ast.walk(fn.node):
+        for fld in ('body', 'orelse'):
+            body = getattr(blk_owner, fld, None)
+            if not (isinstance(body, list) and body and isinstance(body[0], ast.stmt)):
+                continue
+            for i, n in enumerate(body):
+                if not (isinstance(n, ast.If) and not n.orelse and n.body and isinstance(n.body[-1], ast.Return)):
+                    continue
+                disj = n.test.values if isinstance(n.test, ast.BoolOp) and isinstance(n.test.op, ast.Or) else [n.test]
+                for c in disj:
+                    if isinstance(c, ast.Compare) and len(c.ops) == 1 and isinstance(c.ops[0], ast.IsNot) \
+                            and isinstance(c.comparators[0], ast.Constant) and c.comparators[0].value is None:
+                        a = is_self_attr(c.left, selfname)
+                        if a is None or n.body[-1].value is None or is_self_attr(n.body[-1].value, selfname) != a:
+                            continue
+                        for s in body[i + 1:]:
+                            for x in ast.walk(s):
+                                if isinstance(x, (ast.Assign, ast.AnnAssign)):
+                                    tg = x.targets if isinstance(x, ast.Assign) else [x.target]
+                                    if any(is_self_attr(t, selfname) == a for t in tg):
+                                        out.add(a)
     return out
 
 
